@@ -186,3 +186,89 @@ Qed.
 
 Lemma lang_pow_app r n s t : lang (pow n r) s -> lang r t -> lang (pow (S n) r) (t ++ s).
 Proof. intros Hs Ht. cbn [pow]. constructor; assumption. Qed.
+
+(* ---------------------------------------------------------------- fixed-width prefixes *)
+(* width r = Some n: every string of L(r) has length n (conservative) *)
+Fixpoint width (r : re) : option nat :=
+  match r with
+  | Emp => None
+  | Eps => Some 0
+  | Chr _ => Some 1
+  | Cat a b => match width a, width b with Some x, Some y => Some (x + y) | _, _ => None end
+  | Alt a b => match width a, width b with Some x, Some y => if Nat.eqb x y then Some x else None | _, _ => None end
+  | Star _ => None
+  end.
+
+Lemma width_sound : forall r n s, width r = Some n -> lang r s -> length s = n.
+Proof.
+  induction r as [| |f|a IHa b IHb|a IHa b IHb|a IHa]; intros n s W H; cbn [width] in W; try discriminate.
+  - injection W as <-. apply eps_inv in H. subst. reflexivity.
+  - injection W as <-. apply chr_inv in H as (c & -> & _). reflexivity.
+  - destruct (width a) as [x|]; [|discriminate]. destruct (width b) as [y|]; [|discriminate].
+    injection W as <-. apply cat_inv in H as (u & v & -> & Hu & Hv).
+    rewrite app_length, (IHa x u eq_refl Hu), (IHb y v eq_refl Hv). reflexivity.
+  - destruct (width a) as [x|]; [|discriminate]. destruct (width b) as [y|]; [|discriminate].
+    destruct (Nat.eqb x y) eqn:E; [|discriminate]. injection W as <-. apply Nat.eqb_eq in E. subst y.
+    apply alt_inv in H as [H|H]; [apply (IHa x s eq_refl H)|apply (IHb x s eq_refl H)].
+Qed.
+
+Lemma cat_split a b n s : width a = Some n -> lang (Cat a b) s -> lang a (firstn n s) /\ lang b (skipn n s).
+Proof.
+  intros W H. apply cat_inv in H as (u & v & -> & Hu & Hv).
+  pose proof (width_sound a n u W Hu) as L. subst n.
+  rewrite firstn_app, Nat.sub_diag, firstn_all, skipn_app, Nat.sub_diag, skipn_all. cbn [firstn skipn app].
+  rewrite app_nil_r. split; assumption.
+Qed.
+
+(* peel a right-nested concatenation into columns of the given widths *)
+Fixpoint peel (ws : list nat) (r : re) : option (list re * re) :=
+  match ws with
+  | [] => Some ([], r)
+  | w :: ws' =>
+      match r with
+      | Cat a b =>
+          match width a with
+          | Some n => if Nat.eqb n w then
+                        match peel ws' b with Some (cs, rest) => Some (a :: cs, rest) | None => None end
+                      else None
+          | None => None
+          end
+      | _ => None
+      end
+  end.
+
+Fixpoint cols (ws : list nat) (s : list ascii) : list (list ascii) :=
+  match ws with [] => [] | w :: ws' => firstn w s :: cols ws' (skipn w s) end.
+Fixpoint skip_all (ws : list nat) (s : list ascii) : list ascii :=
+  match ws with [] => s | w :: ws' => skip_all ws' (skipn w s) end.
+
+Lemma peel_sound : forall ws r cs rest s,
+  peel ws r = Some (cs, rest) -> lang r s -> Forall2 lang cs (cols ws s) /\ lang rest (skip_all ws s).
+Proof.
+  induction ws as [|w ws IH]; intros r cs rest s P H; cbn [peel cols skip_all] in *.
+  - injection P as <- <-. split; [constructor|exact H].
+  - destruct r as [| |f|a b|a b|a]; try discriminate.
+    destruct (width a) as [n|] eqn:W; [|discriminate].
+    destruct (Nat.eqb n w) eqn:E; [|discriminate]. apply Nat.eqb_eq in E. subst n.
+    destruct (peel ws b) as [[cs' rest']|] eqn:Pb; [|discriminate]. injection P as <- <-.
+    destruct (cat_split a b w s W H) as [Ha Hb].
+    destruct (IH b cs' rest' (skipn w s) Pb Hb) as [F R].
+    split; [constructor; assumption|exact R].
+Qed.
+
+(* a component that accepts exactly the one-character string [c] *)
+Definition only_char (n : nat) (r : re) : bool :=
+  match r with
+  | Chr f => forallb (fun k => negb (f (ascii_of_nat k)) || Nat.eqb k n) (seq 0 256)
+  | _ => false
+  end.
+
+Lemma only_char_sound n r s : only_char n r = true -> lang r s -> s = [ascii_of_nat n].
+Proof.
+  destruct r as [| |f| | |]; try discriminate. cbn [only_char]. intros F H.
+  apply chr_inv in H as (c & -> & Hc). f_equal.
+  rewrite forallb_forall in F. specialize (F (nat_of_ascii c)).
+  rewrite ascii_nat_embedding, Hc in F. cbn [negb orb] in F.
+  assert (Hin : In (nat_of_ascii c) (seq 0 256)) by (apply in_seq; pose proof (nat_ascii_bounded c); lia).
+  apply F, Nat.eqb_eq in Hin. rewrite <- Hin. symmetry. apply ascii_nat_embedding.
+Qed.
